@@ -372,6 +372,18 @@ Definition sign_phase (c : config) (e : env) (d : duty) : list event * option (p
                         sp_conts := [(code, {| sb_hdr := Some h; sb_sig := sig; sb_blobs := signed_blobs p |})] |}))
   end end end end end end.
 
+(* unblindProposal builds each request from the signed proposal at the time of the call, and on
+   receiving a relay's block (before the deadline, version bellatrix..deneb) it clears the blinded
+   container of that same structure: a relay that retries after that sends the version and no block.
+   (The real builder client refuses such a request locally.) *)
+Definition late_request (sp : sproposal) : ureq := {| u_version := sp_version sp; u_conts := [] |}.
+
+Definition request_at (sp : sproposal) (w : option N) (deadline st : N) : ureq :=
+  match w, full_container (sp_version sp) with
+  | Some t, Some _ => if (t <? deadline) && (t <? st) then late_request sp else unblind_request sp
+  | _, _ => unblind_request sp
+  end.
+
 (* the relays asked to unblind: those of the winning bid, or all *)
 Definition candidates (c : config) (winners all : list nat) : list nat :=
   if Nat.eqb (length winners) 0 || c_unblind_all c then all else winners.
@@ -394,7 +406,7 @@ Definition deliver_phase (c : config) (e : env) (evs : list event) (sp : spropos
   let req := unblind_request sp in
   let plans := plans_from (e_deadline e) cands 0 (e_relays e) in
   let w := first_delivery plans in
-  let calls := map (fun cs => map (fun k => (k_start k, req)) (cut w cs)) plans in
+  let calls := map (fun cs => map (fun k => (k_start k, request_at sp w (e_deadline e) (k_start k))) (cut w cs)) plans in
   match w with
   | Some t =>
       if t <? e_deadline e then
@@ -435,8 +447,13 @@ Definition finishes (plans : list (list call)) : list N := concat (map (map k_fi
 
 Definition count_eq (t : N) (l : list N) : nat := length (filter (N.eqb t) l).
 
+Definition starts (plans : list (list call)) : list N := concat (map (map k_start) plans).
+
+(* ... or with another relay's call starting (it reads the structure the collector is clearing);
+   the delivering call itself may start at that instant (latency 0) *)
 Definition tie_free (deadline : N) (plans : list (list call)) : bool :=
   match first_delivery plans with
   | None => true
   | Some w => Nat.eqb (count_eq w (finishes plans)) 1 && negb (w =? deadline)
+              && Nat.leb (count_eq w (starts plans)) (count_eq w (map k_start (filter (fun k => is_ok (k_out k) && (k_finish k =? w)) (concat plans))))
   end.
